@@ -1,7 +1,7 @@
 (* C19 — before/after hooks bracket each item exactly once, even on failure. *)
 From Coq Require Import List Arith NArith Lia Bool.
 Import ListNotations.
-Require Import Walker Hooks Hooks2.
+Require Import Walker Hooks Hooks2 RunStatus RunWhole.
 
 (* the trace of Backuper::run is the concatenation, over a prefix of the items in configuration order, of
    before? ++ work ++ after?; the prefix is all items unless one aborted, and then it ends with that item INCLUDING its
@@ -46,5 +46,18 @@ Check C19_unprepared_item_fails_run : forall its k j,
   fst (run_items 0 its) = concat (map (fun j => fst (one_item (0 + j) (nth j its dflt))) (seq 0 k)) -> j < k ->
   it_tree (nth j its dflt) = None -> run_ok its = false.
 
+(* ... and the exit status of the whole `vsb backup` run: the retention phase that follows the items (listing clean or not, groups
+   due for deletion or not, deletions succeeding or not) cannot turn that failure into a success *)
+Theorem C19_failing_hook_fails_backup : forall its k j c l o d,
+  fst (run_items 0 its) = concat (map (fun j => fst (one_item (0 + j) (nth j its dflt))) (seq 0 k)) -> j < k ->
+  (it_before (nth j its dflt) = Some false \/ it_after (nth j its dflt) = Some false \/ it_tree (nth j its dflt) = None) ->
+  backup_status c (run_ok its) l o d = false.
+Proof. exact failing_hook_fails_backup. Qed.
+Check C19_failing_hook_fails_backup : forall its k j c l o d,
+  fst (run_items 0 its) = concat (map (fun j => fst (one_item (0 + j) (nth j its dflt))) (seq 0 k)) -> j < k ->
+  (it_before (nth j its dflt) = Some false \/ it_after (nth j its dflt) = Some false \/ it_tree (nth j its dflt) = None) ->
+  backup_status c (run_ok its) l o d = false.
+
 Print Assumptions C19_hooks_bracket.
 Print Assumptions C19_failing_hook_fails_run.
+Print Assumptions C19_failing_hook_fails_backup.
